@@ -23,3 +23,10 @@ func (r *ClientRegistry) VerifLocked() bool {
 	}
 	return true
 }
+
+// VerifHold takes the registry write lock and returns the function that releases it: the harness uses it to make
+// two registry calls started meanwhile queue on the mutex (lock-contention scenarios).
+func (r *ClientRegistry) VerifHold() func() {
+	r.mu.Lock()
+	return r.mu.Unlock
+}
